@@ -37,6 +37,8 @@ var (
 	caKey  *ecdsa.PrivateKey
 	caCert *x509.Certificate
 	qlog   logger.Logger
+	// keys of the intermediate CAs of chain answers (the certificates are made per answer, with the scripted windows)
+	intKeys [2]*ecdsa.PrivateKey
 )
 
 func ca() {
@@ -53,6 +55,11 @@ func ca() {
 			panic(err)
 		}
 		caCert, _ = x509.ParseCertificate(der)
+		for i := range intKeys {
+			if intKeys[i], err = ecdsa.GenerateKey(elliptic.P256(), rand.Reader); err != nil {
+				panic(err)
+			}
+		}
 		qlog = logger.NewLogger("verif-c19")
 		qlog.SetOutput(io.Discard)
 	})
@@ -64,7 +71,17 @@ type response struct {
 	Bad       string        // the issuer answers, but with something the client must refuse: empty | noid | badid | twoids | anchors-fail (the trust-anchor source fails for this fetch; only consulted with an identity directory)
 	NotBefore time.Duration // offset of NotBefore from the instant of the request (may be negative)
 	Validity  time.Duration
+	// Chain: the issuer answers with a real chain - the leaf followed by these intermediate CA certificates (the first one
+	// signed the leaf, each next one signed the one before it, the last one is signed by the root). Their validity windows
+	// are given relative to the leaf's and differ from it.
+	Chain []chainLink
 }
+
+// chainLink is the validity window of one intermediate certificate relative to the leaf it comes with:
+// NotBefore = leaf.NotBefore + StartOff, NotAfter = leaf.NotAfter + EndOff.
+type chainLink struct{ StartOff, EndOff time.Duration }
+
+func (l chainLink) String() string { return fmt.Sprintf("ca(start%+v,end%+v)", l.StartOff, l.EndOff) }
 
 func (r response) String() string {
 	if r.Fail {
@@ -75,6 +92,9 @@ func (r response) String() string {
 	}
 	if r.Bad != "" {
 		return "bad(" + r.Bad + ")"
+	}
+	if len(r.Chain) > 0 {
+		return fmt.Sprintf("cert(nb%+v,valid=%v,chain=%v)", r.NotBefore, r.Validity, r.Chain)
 	}
 	return fmt.Sprintf("cert(nb%+v,valid=%v)", r.NotBefore, r.Validity)
 }
@@ -182,6 +202,10 @@ type request struct {
 	serial  int64
 	nb, na  time.Time
 	anchors string
+	chain   []*x509.Certificate // the answer as issued (leaf first)
+	// answered: the issuer has given its answer to this request (set at the instant its function returns). Until then the
+	// fetch this request belongs to cannot have finished.
+	answered bool
 }
 
 type issuer struct {
@@ -207,6 +231,23 @@ func (is *issuer) fn(ctx context.Context, csrDER []byte) ([]*x509.Certificate, e
 	is.mu.Lock()
 	idx := len(is.reqs)
 	is.reqs = append(is.reqs, request{at: time.Now(), pub: pub})
+	is.mu.Unlock()
+	chain, err := is.answer(ctx, idx, pub)
+	is.mu.Lock()
+	is.reqs[idx].answered = true
+	is.mu.Unlock()
+	return chain, err
+}
+
+// inFlight tells whether the issuer has been asked for the initial certificate and has not answered yet.
+func (is *issuer) inFlight() bool {
+	is.mu.Lock()
+	defer is.mu.Unlock()
+	return len(is.reqs) > 0 && !is.reqs[0].answered
+}
+
+func (is *issuer) answer(ctx context.Context, idx int, pub *ecdsa.PublicKey) ([]*x509.Certificate, error) {
+	is.mu.Lock()
 	gate := is.gate
 	is.mu.Unlock()
 	if idx == 0 && gate != nil {
@@ -279,7 +320,29 @@ func (is *issuer) fn(ctx context.Context, csrDER []byte) ([]*x509.Certificate, e
 	}
 	tmpl := &x509.Certificate{SerialNumber: big.NewInt(serial), NotBefore: now.Add(resp.NotBefore), NotAfter: now.Add(resp.NotBefore + resp.Validity), URIs: uris,
 		KeyUsage: x509.KeyUsageDigitalSignature}
-	der, err := x509.CreateCertificate(rand.Reader, tmpl, caCert, pub, caKey)
+	// the intermediates, from the one under the root down to the one that signs the leaf
+	if len(resp.Chain) > len(intKeys) {
+		return nil, fmt.Errorf("harness: chain of %d intermediates", len(resp.Chain))
+	}
+	parent, parentKey := caCert, caKey
+	var inters []*x509.Certificate
+	for k := len(resp.Chain) - 1; k >= 0; k-- {
+		l := resp.Chain[k]
+		it := &x509.Certificate{SerialNumber: big.NewInt(1<<40 + serial*8 + int64(k)), Subject: pkix.Name{CommonName: fmt.Sprintf("verif-intermediate-%d", k)},
+			NotBefore: tmpl.NotBefore.Add(l.StartOff), NotAfter: tmpl.NotAfter.Add(l.EndOff),
+			IsCA: true, KeyUsage: x509.KeyUsageCertSign, BasicConstraintsValid: true}
+		ider, err := x509.CreateCertificate(rand.Reader, it, parent, &intKeys[k].PublicKey, parentKey)
+		if err != nil {
+			return nil, err
+		}
+		ic, err := x509.ParseCertificate(ider)
+		if err != nil {
+			return nil, err
+		}
+		inters = append([]*x509.Certificate{ic}, inters...)
+		parent, parentKey = ic, intKeys[k]
+	}
+	der, err := x509.CreateCertificate(rand.Reader, tmpl, parent, pub, parentKey)
 	if err != nil {
 		return nil, err
 	}
@@ -287,11 +350,13 @@ func (is *issuer) fn(ctx context.Context, csrDER []byte) ([]*x509.Certificate, e
 	if err != nil {
 		return nil, err
 	}
+	chain := append([]*x509.Certificate{leaf}, inters...)
 	accepted := resp.Bad == "" || (resp.Bad == "anchors-fail" && !is.dirMode)
 	is.mu.Lock()
 	is.reqs[idx].ok, is.reqs[idx].serial, is.reqs[idx].nb, is.reqs[idx].na = accepted, serial, leaf.NotBefore, leaf.NotAfter
+	is.reqs[idx].chain = append([]*x509.Certificate(nil), chain...)
 	is.mu.Unlock()
-	return []*x509.Certificate{leaf}, nil
+	return chain, nil
 }
 
 func (is *issuer) snapshot() []request {
@@ -322,10 +387,24 @@ func (a anchors) CurrentTrustAnchors(ctx context.Context) ([]byte, error) {
 func (a anchors) Watch(context.Context, chan<- []byte) {}
 func (a anchors) Run(context.Context) error            { return nil }
 
+// settleStacks is vk.SettleStacks with patience: a goroutine of the case that sits in a raw system call (the identity
+// directory's symlink / rename / remove on a busy file system) is "running" for as long as the kernel takes, which on a
+// loaded machine has been seen to outlast one full round of snapshots. Not settling is only reported after three rounds.
+func settleStacks() (p vk.Parked, err error) {
+	for round := 0; round < 3; round++ {
+		if p, err = vk.SettleStacks(); err == nil {
+			return p, nil
+		}
+	}
+	return p, err
+}
+
 // ---------------------------------------------------------------- (A) readiness
 
 type readyCase struct {
-	Order     []string // permutation of run, ready, get, get2
+	// Order: permutation of run, ready, get, get2 and - further calls of Run on the same object while the first one is at
+	// work, which are refused - run2, run3 (the Run calls are named by their position: the first one issued is "run").
+	Order     []string
 	InitialOK bool
 	Gate      bool // the initial fetch blocks until every call has been issued
 	// RunCtx: the state of the context Run is called with. "" = live until the end of the case; "cancelled" = cancelled
@@ -349,7 +428,31 @@ func (c readyCase) String() string {
 	return fmt.Sprintf("spiffe.ready{order=%v initialOK=%v%s gateInitialFetch=%v runContext=%s issuerHonoursContext=%v}", c.Order, c.InitialOK, ek, c.Gate, rc, c.Honours)
 }
 
-func runReady(t *testing.T, c readyCase) (parkedBeforeRun bool, err error) {
+// readyOutcome says what a readiness case reached.
+type readyOutcome struct {
+	parkedBeforeRun   bool // a consumer was issued before Run
+	extraRunInFlight  bool // a further Run was issued (and refused) while the issuer had been asked for the initial certificate and had not answered
+	extraRunObserved  bool // ... and a Ready / GetX509SVID call was waiting at that instant or was issued before the issuer answered
+	extraRunAfterDone bool // a further Run was issued after the initial fetch had finished
+}
+
+func isExtraRun(call string) bool { return call == "run2" || call == "run3" }
+
+// nameRuns renames the Run calls of an order by position: the first is "run" (the one that does the work), the later
+// ones "run2", "run3".
+func nameRuns(order []string) []string {
+	out := append([]string(nil), order...)
+	n := 0
+	for i, call := range out {
+		if call == "run" || isExtraRun(call) {
+			out[i] = []string{"run", "run2", "run3"}[n]
+			n++
+		}
+	}
+	return out
+}
+
+func runReady(t *testing.T, c readyCase) (out readyOutcome, err error) {
 	ca()
 	vk.KeepDumps = true
 	var errs vk.Errs
@@ -364,7 +467,7 @@ func runReady(t *testing.T, c readyCase) (parkedBeforeRun bool, err error) {
 		s := spiffe.New(spiffe.Options{Log: qlog, RequestSVIDFn: is.fn})
 		src := s.SVIDSource()
 		settle := func() bool {
-			p, e := vk.SettleStacks()
+			p, e := settleStacks()
 			if e != nil {
 				errs.Failf("%v\n%s", e, p.Dump)
 				return false
@@ -401,16 +504,72 @@ func runReady(t *testing.T, c readyCase) (parkedBeforeRun bool, err error) {
 		results := map[string]error{}
 		var wg sync.WaitGroup
 		runIssued := false
+		// Nobody gets through before the initial fetch has finished: at a settled point at which no Run has been issued
+		// yet, or the issuer has been asked for the initial certificate and has not answered, no Ready / GetX509SVID
+		// call has returned - whatever else has been called on the object meanwhile (a further Run that is refused).
+		premature := func(when string) bool {
+			if runIssued && !is.inFlight() {
+				return false
+			}
+			state := "no Run has been called yet"
+			if runIssued {
+				state = "the issuer has been asked for the initial certificate and has not answered yet"
+			}
+			mu.Lock()
+			defer mu.Unlock()
+			for _, call := range c.Order {
+				if done[call] && !isExtraRun(call) && call != "run" {
+					what := "Ready"
+					if call != "ready" {
+						what = "GetX509SVID"
+					}
+					errs.Failf("%s (call %q) returned (%v) %s although the initial fetch has not finished: %s", what, call, results[call], when, state)
+					return true
+				}
+			}
+			return false
+		}
+		// release lets everything run to its end after a failure found while the initial fetch is held (goroutines parked
+		// on the SPIFFE lock cannot be abandoned: the bubble would never end)
+		gateOpen := false
+		release := func() {
+			if c.Gate && !gateOpen {
+				gateOpen = true
+				close(is.gate)
+			}
+			cancel()
+			settle()
+		}
+		consumersIssued := 0
 		for _, call := range c.Order {
 			if (call == "get" || call == "get2" || call == "ready") && !runIssued {
-				parkedBeforeRun = true
+				out.parkedBeforeRun = true
+			}
+			if isExtraRun(call) {
+				if !runIssued {
+					errs.Failf("harness: %s before run in %v", call, c.Order)
+					return
+				}
+				if is.inFlight() {
+					out.extraRunInFlight = true
+					if consumersIssued > 0 {
+						out.extraRunObserved = true
+					}
+				} else {
+					out.extraRunAfterDone = true
+				}
+			} else if call != "run" {
+				consumersIssued++
+				if out.extraRunInFlight && is.inFlight() {
+					out.extraRunObserved = true
+				}
 			}
 			wg.Add(1)
 			errs.Go(func() {
 				defer wg.Done()
 				var e error
 				switch call {
-				case "run":
+				case "run", "run2", "run3":
 					e = s.Run(ctx)
 				case "ready":
 					e = s.Ready(context.Background())
@@ -431,14 +590,34 @@ func runReady(t *testing.T, c readyCase) (parkedBeforeRun bool, err error) {
 			if !settle() {
 				return
 			}
+			if premature(fmt.Sprintf("after %q was called", call)) {
+				release()
+				return
+			}
+			if isExtraRun(call) {
+				// a Run call that finds the object already running is refused: it returns an error (and does not wait)
+				mu.Lock()
+				d, e := done[call], results[call]
+				mu.Unlock()
+				if !d || e == nil {
+					errs.Failf("a further Run call (%q) made while the first one is at work was not refused with an error (returned=%v err=%v)", call, d, e)
+					release()
+					return
+				}
+			}
 		}
 		if c.RunCtx == "cancelled-in-fetch" {
 			cancel()
 			if !settle() {
 				return
 			}
+			if premature("after Run's context was cancelled") {
+				release()
+				return
+			}
 		}
 		if c.Gate {
+			gateOpen = true
 			close(is.gate)
 		}
 		if !settle() {
@@ -514,13 +693,36 @@ func runReady(t *testing.T, c readyCase) (parkedBeforeRun bool, err error) {
 		}
 	})
 	if e := errs.Err(); e != nil {
-		return parkedBeforeRun, e
+		return out, e
 	}
-	return parkedBeforeRun, berr
+	return out, berr
+}
+
+func (o readyOutcome) classes() []string {
+	var cls []string
+	if o.extraRunInFlight {
+		cls = append(cls, "further-Run-refused.while-initial-fetch-in-flight")
+	}
+	if o.extraRunObserved {
+		cls = append(cls, "further-Run-refused.while-initial-fetch-in-flight.with-consumer-waiting-or-arriving")
+	}
+	if o.extraRunAfterDone {
+		cls = append(cls, "further-Run-refused.after-initial-fetch")
+	}
+	return cls
 }
 
 func (c readyCase) classes() []string {
 	cls := []string{"readiness"}
+	runs := 0
+	for _, call := range c.Order {
+		if call == "run" || isExtraRun(call) {
+			runs++
+		}
+	}
+	if runs > 1 {
+		cls = append(cls, fmt.Sprintf("run-calls.%d", runs))
+	}
 	if c.RunCtx != "" {
 		cls = append(cls, "run-context."+c.RunCtx)
 		if c.Honours {
@@ -559,29 +761,59 @@ func permutations(xs []string) [][]string {
 	return out
 }
 
+// runOrders lists the distinct orders of a set of calls in which "run" may occur several times (the Run calls are then
+// named by position, see nameRuns).
+func runOrders(set []string) [][]string {
+	var out [][]string
+	seen := map[string]bool{}
+	for _, p := range permutations(set) {
+		o := nameRuns(p)
+		if k := strings.Join(o, ","); !seen[k] {
+			seen[k] = true
+			out = append(out, o)
+		}
+	}
+	return out
+}
+
 // TestReadinessOrders enumerates every order of the first calls to Run, Ready and GetX509SVID (twice), with the
 // initial fetch succeeding or failing, returning at once or only after all calls were issued, and with Run's context
-// live / already cancelled / already expired at the call / cancelled during the fetch, the issuer honouring it or not.
+// live / already cancelled / already expired at the call / cancelled during the fetch, the issuer honouring it or not;
+// and every order of those calls with a SECOND call of Run (which is refused) among them.
 func TestReadinessOrders(t *testing.T) {
 	sec := vk.Sec("ReadinessOrders")
 	idx := 0
+	one := func(c readyCase) {
+		idx++
+		if !vk.Mine(idx) {
+			return
+		}
+		out, err := runReady(t, c)
+		if err != nil {
+			t.Fatalf("C19 SPIFFE violated: %v\ncase: %s", err, c)
+		}
+		sec.Case(out.parkedBeforeRun || out.extraRunObserved, vk.FP(c.String()), append(c.classes(), out.classes()...)...)
+		sec.Sample(func() any { return c.String() })
+	}
 	for _, set := range [][]string{{"run", "ready", "get"}, {"run", "ready", "get", "get2"}, {"run", "get"}, {"run", "ready"}} {
 		for _, order := range permutations(set) {
 			for _, ok := range []bool{true, false} {
 				for _, gate := range []bool{false, true} {
 					for _, rc := range runCtxVariants(gate) {
-						idx++
-						if !vk.Mine(idx) {
-							continue
-						}
-						c := readyCase{Order: order, InitialOK: ok, Gate: gate, RunCtx: rc[0].(string), Honours: rc[1].(bool)}
-						parked, err := runReady(t, c)
-						if err != nil {
-							t.Fatalf("C19 SPIFFE violated: %v\ncase: %s", err, c)
-						}
-						sec.Case(parked, vk.FP(c.String()), c.classes()...)
-						sec.Sample(func() any { return c.String() })
+						one(readyCase{Order: order, InitialOK: ok, Gate: gate, RunCtx: rc[0].(string), Honours: rc[1].(bool)})
 					}
+				}
+			}
+		}
+	}
+	// Two calls of Run: the second one finds the first at work - held in the initial fetch (gate), or past it - and is
+	// refused; it must not let anybody through. (Three calls of Run and the other context states: ReadinessContexts.)
+	for _, set := range [][]string{{"run", "run", "ready", "get"}, {"run", "run", "ready"}, {"run", "run", "get"}} {
+		for _, order := range runOrders(set) {
+			for _, ok := range []bool{true, false} {
+				one(readyCase{Order: order, InitialOK: ok})
+				for _, rc := range [][2]any{{"", false}, {"cancelled", false}, {"cancelled-in-fetch", false}, {"cancelled-in-fetch", true}} {
+					one(readyCase{Order: order, InitialOK: ok, Gate: true, RunCtx: rc[0].(string), Honours: rc[1].(bool)})
 				}
 			}
 		}
@@ -593,10 +825,11 @@ func TestReadinessOrders(t *testing.T) {
 // from the menu (errKinds) and Run's context also of a caller's own type.
 func TestReadinessContexts(t *testing.T) {
 	sec := vk.Sec("ReadinessContexts")
-	sets := [][]string{{"run", "ready", "get"}, {"run", "ready", "get", "get2"}, {"run", "get"}, {"run", "ready"}}
+	sets := [][]string{{"run", "ready", "get"}, {"run", "ready", "get", "get2"}, {"run", "get"}, {"run", "ready"},
+		{"run", "run", "ready", "get"}, {"run", "run", "ready"}, {"run", "run", "get"}, {"run", "run", "run", "ready", "get"}, {"run", "run", "ready", "get", "get2"}, {"run", "run", "run", "ready"}}
 	vk.Check(t, 300, 20000, func(rt *rapid.T) {
 		set := sets[rapid.IntRange(0, len(sets)-1).Draw(rt, "set")]
-		c := readyCase{Order: rapid.Permutation(set).Draw(rt, "order"), InitialOK: rapid.Bool().Draw(rt, "initialOK"), Gate: rapid.Bool().Draw(rt, "gate")}
+		c := readyCase{Order: nameRuns(rapid.Permutation(set).Draw(rt, "order")), InitialOK: rapid.Bool().Draw(rt, "initialOK"), Gate: rapid.Bool().Draw(rt, "gate")}
 		kinds := []string{"", "", "cancelled", "expired", "relay-cancelled"}
 		if c.Gate {
 			kinds = append(kinds, "cancelled-in-fetch")
@@ -606,11 +839,11 @@ func TestReadinessContexts(t *testing.T) {
 		if !c.InitialOK {
 			c.ErrKind = rapid.SampledFrom(errKinds).Draw(rt, "initialError")
 		}
-		parked, err := runReady(t, c)
+		out, err := runReady(t, c)
 		if err != nil {
 			rt.Fatalf("C19 SPIFFE violated: %v\ncase: %s", err, c)
 		}
-		sec.Case(parked, vk.FP(c.String()), c.classes()...)
+		sec.Case(out.parkedBeforeRun || out.extraRunObserved, vk.FP(c.String()), append(c.classes(), out.classes()...)...)
 		sec.Sample(func() any { return c.String() })
 	})
 }
@@ -661,7 +894,7 @@ func runRenew(t *testing.T, c renewCase) (out renewOutcome, err error) {
 		runDone := make(chan struct{})
 		errs.Go(func() { runErr = s.Run(ctx); close(runDone) })
 		settle := func() bool {
-			p, e := vk.SettleStacks()
+			p, e := settleStacks()
 			if e != nil {
 				errs.Failf("%v\n%s", e, p.Dump)
 				return false
@@ -747,6 +980,11 @@ func runRenew(t *testing.T, c renewCase) (out renewOutcome, err error) {
 				errs.Failf("after %s: the served private key does not belong to the request that produced the served certificate", step)
 				return false
 			}
+			// ... with its certificate chain as issued: the leaf followed by the intermediates, in that order
+			if d := chainDiff(svid.Certificates, reqs[last].chain); d != "" {
+				errs.Failf("after %s: the served SVID does not carry the certificate chain of the most recent fetch (request %d) as issued: %s", step, last, d)
+				return false
+			}
 			// renewal no later than one minute after half-life; failed renewals retried after 10 s
 			cur := reqs[last]
 			half := cur.nb.Add(cur.na.Sub(cur.nb) / 2)
@@ -800,6 +1038,19 @@ func runRenew(t *testing.T, c renewCase) (out renewOutcome, err error) {
 				}
 				kb, _ := pem.Decode(key)
 				cb, _ := pem.Decode(cert)
+				var fileChain []*x509.Certificate
+				for rest := cert; ; {
+					var b *pem.Block
+					if b, rest = pem.Decode(rest); b == nil {
+						break
+					}
+					fc, e := x509.ParseCertificate(b.Bytes)
+					if e != nil {
+						errs.Failf("after %s: cert.pem of the identity directory holds a block that is no certificate: %v", step, e)
+						return false
+					}
+					fileChain = append(fileChain, fc)
+				}
 				if kb == nil || cb == nil {
 					errs.Failf("after %s: identity directory holds no PEM", step)
 					return false
@@ -819,6 +1070,10 @@ func runRenew(t *testing.T, c renewCase) (out renewOutcome, err error) {
 				}
 				if leaf.SerialNumber.Int64() != reqs[last].serial || !pub.Equal(reqs[last].pub) || string(anch) != reqs[last].anchors {
 					errs.Failf("after %s: the identity directory is not the file set of the most recent fetch (request %d): cert serial %d (want %d), key matches=%v, anchors %q (want %q)", step, last, leaf.SerialNumber.Int64(), reqs[last].serial, pub.Equal(reqs[last].pub), anch, reqs[last].anchors)
+					return false
+				}
+				if d := chainDiff(fileChain, reqs[last].chain); d != "" {
+					errs.Failf("after %s: cert.pem of the identity directory is not the certificate chain of the most recent fetch (request %d) as issued: %s", step, last, d)
 					return false
 				}
 			}
@@ -858,6 +1113,29 @@ func runRenew(t *testing.T, c renewCase) (out renewOutcome, err error) {
 	return out, berr
 }
 
+// chainDiff compares a certificate chain with the one the issuer answered with ("" = the same certificates in the same order).
+func chainDiff(got, want []*x509.Certificate) string {
+	desc := func(cs []*x509.Certificate) string {
+		var s []string
+		for _, c := range cs {
+			if c == nil {
+				s = append(s, "<nil>")
+				continue
+			}
+			s = append(s, fmt.Sprintf("%s#%v", c.Subject.CommonName, c.SerialNumber))
+		}
+		return "[" + strings.Join(s, " ") + "]"
+	}
+	same := len(got) == len(want)
+	for i := 0; same && i < len(got); i++ {
+		same = got[i] != nil && got[i].Equal(want[i])
+	}
+	if same {
+		return ""
+	}
+	return fmt.Sprintf("got %s, issued %s (subject#serial, leaf first)", desc(got), desc(want))
+}
+
 func TestRenewal(t *testing.T) {
 	sec := vk.Sec("Renewal")
 	durs := []time.Duration{time.Second, 5 * time.Second, 10 * time.Second, 30 * time.Second, time.Minute, 90 * time.Second, 10 * time.Minute, time.Hour, 12 * time.Hour, 24 * time.Hour}
@@ -890,7 +1168,17 @@ func TestRenewal(t *testing.T) {
 			case 2:
 				nb = v / 10 // not yet valid
 			}
-			c.Script = append(c.Script, response{NotBefore: nb, Validity: v})
+			r := response{NotBefore: nb, Validity: v}
+			// the answer is a real chain: the leaf and 1..2 intermediates whose validity differs from the leaf's - they
+			// started (long) before the leaf or only after it, they outlive it (by an hour .. 10 years) or expire before it.
+			// The renewal law is about the current certificate - the leaf.
+			for k := rapid.SampledFrom([]int{0, 0, 1, 1, 2}).Draw(rt, "intermediates"); k > 0; k-- {
+				r.Chain = append(r.Chain, chainLink{
+					StartOff: rapid.SampledFrom([]time.Duration{-10 * 365 * 24 * time.Hour, -30 * 24 * time.Hour, -time.Hour, -time.Second, 0, v / 4, v / 2}).Draw(rt, "caStart"),
+					EndOff:   rapid.SampledFrom([]time.Duration{10 * 365 * 24 * time.Hour, 365 * 24 * time.Hour, 24 * time.Hour, time.Hour, 4 * v, v, 0, -v / 8, -v / 4}).Draw(rt, "caEnd"),
+				})
+			}
+			c.Script = append(c.Script, r)
 		}
 		m := rapid.IntRange(1, 12).Draw(rt, "nsteps")
 		for i := 0; i < m; i++ {
@@ -917,6 +1205,32 @@ func TestRenewal(t *testing.T) {
 				cls = append(cls, where+"-failure-error."+r.errKind())
 				if ctxFlavoured(r.errKind()) {
 					cls = append(cls, where+"-failure-error-is-a-context-error")
+				}
+			}
+		}
+		for i, r := range c.Script {
+			if len(r.Chain) == 0 || r.Fail || r.Bad != "" || i >= out.requests {
+				continue
+			}
+			// chains that were issued (and accepted); ".renewed": the certificate was current until its renewal was requested
+			cls = append(cls, fmt.Sprintf("issuer-chain.%d-intermediates", len(r.Chain)))
+			renewed := ""
+			if i+1 < out.requests {
+				renewed = ".renewed"
+				cls = append(cls, "issuer-chain.renewed")
+			}
+			for _, l := range r.Chain {
+				switch {
+				case l.EndOff > 0:
+					cls = append(cls, "issuer-chain.intermediate-outlives-leaf"+renewed)
+				case l.EndOff < 0:
+					cls = append(cls, "issuer-chain.intermediate-expires-before-leaf"+renewed)
+				}
+				switch {
+				case l.StartOff > 0:
+					cls = append(cls, "issuer-chain.intermediate-starts-after-leaf"+renewed)
+				case l.StartOff < 0:
+					cls = append(cls, "issuer-chain.intermediate-starts-before-leaf"+renewed)
 				}
 			}
 		}
